@@ -70,7 +70,9 @@ class JunctionTree(ClusterGraph):
         >>> G.add_edges_from([(('a', 'b', 'c'), ('a', 'b')),
         ...                   (('a', 'b', 'c'), ('a', 'c'))])
         """
-        if u in self.nodes() and v in self.nodes() and nx.has_path(self, u, v):
+        if u == v or (
+            u in self.nodes() and v in self.nodes() and nx.has_path(self, u, v)
+        ):
             raise ValueError(
                 f"Addition of edge between {str(u)} and {str(v)} forms a cycle breaking the properties of Junction Tree"
             )
